@@ -197,6 +197,9 @@ def make_project(root):
     bfg.write_tree(src, {k: v for k, v in PROJECT.items() if k != 'tc.bfg'})
     with open(os.path.join(root, 'tc.bfg'), 'w') as f:
         f.write(PROJECT['tc.bfg'])
+    # a cross-compiling toolchain: without --prefix the absolute install directories are unset (null)
+    with open(os.path.join(root, 'tc-cross.bfg'), 'w') as f:
+        f.write("target_platform('linux', 'aarch64')\n" + PROJECT['tc.bfg'])
     return src
 
 
@@ -227,7 +230,7 @@ def configs(thorough):
     libmodes = [[], ['--enable-static'], ['--disable-shared', '--enable-static']]
     dirs = [[], ['--prefix=/op t/pre'], ['--bindir=/b in/'], ['--exec-prefix=/ex', '--libdir=/l/ib'],
             ['--includedir=/inc', '--datadir=/d ata', '--mandir=/man']]
-    tcs = [False, True]
+    tcs = [False, True, 'cross']
     extra = [[], ['--opt=given'], ['--x-opt=a b']]
     compdb = [[], ['--disable-compdb']]
     out = []
@@ -235,6 +238,8 @@ def configs(thorough):
         if not thorough:
             # pairwise-complete reduction is NOT used: the quick tier is a smaller full product
             if lm == libmodes[2] or dr in dirs[3:] or cd:
+                continue
+            if tc == 'cross' and (lm or ex):
                 continue
         out.append(dict(backend=b, args=lm + dr + cd, toolchain=tc, extra=ex))
     return out
@@ -246,7 +251,7 @@ def configure_with(root, cfg, stubbin, envextra, bld=None):
     env = bfg.base_env(stubbin, extra=envextra)
     args = list(cfg['args'])
     if cfg['toolchain']:
-        args += ['--toolchain', os.path.join(root, 'tc.bfg')]
+        args += ['--toolchain', os.path.join(root, 'tc-cross.bfg' if cfg['toolchain'] == 'cross' else 'tc.bfg')]
     r = bfg.configure(src, bld, cfg['backend'], env, args=args, extra=cfg['extra'])
     return r, env, bld
 
@@ -291,6 +296,11 @@ def _cfg_shard(arg):
         viol.append(('save-load-save-unstable', label, ''))
     if open(os.path.join(bld, '.bfg_environ')).read() != bytes1:
         viol.append(('load-save-differs-from-configure', label, ''))
+    raw = json.load(open(os.path.join(bld, '.bfg_environ')))['data']['install_dirs']
+    for k, v in raw.items():
+        got = f1['install_dirs'].get(k)
+        if (v is None) != (got is None) or (v is not None and list(got[0]) != list(v)):
+            viol.append(('loaded-install-dir', label, '%s is saved as %r but loaded as %r' % (k, v, got)))
     # what configure was told must be what was saved
     want_vars = dict(E)
     if cfg['toolchain']:
